@@ -19,7 +19,8 @@ def handleLoss (req : Json) : Except String Json := do
   let meas : List (Meas ExtQ) ← (← (← req.getObjVal? "meas").getArr?).toList.mapM decMeas
   let mu : CliqueVec ExtQ ← decCliqueVec (← req.getObjVal? "mu")
   let eigs : List ExtQ ← decList (← req.getObjVal? "eigs")
-  let (loss, grad) := marginalLoss dom cliques meas mu
+  let l1 := (req.getObjValAs? Bool "l1").toOption.getD false
+  let (loss, grad) := if l1 then marginalLossL1 dom cliques meas mu else marginalLoss dom cliques meas mu
   let lip := lipschitz dom cliques meas eigs
   let groups := meas.map (fun m => match groupOf dom cliques m.proj with
     | some c => (encList c : Json) | none => Json.null)
